@@ -223,6 +223,40 @@ def rule_r1_single(ctx: Ctx) -> int:
                     if final_tag != best or got != flags:
                         bad.append({"initial_best_rank": initial_rank, "batch_ranks": batch, "stored_best": final_tag, "expected_best": best,
                                     "reported": got, "expected_flags": flags})
+        # the same *object* presented again (the incumbent re-registered by elitism or an un-mutated survivor, one individual twice in a batch):
+        # it improves on nothing the second time - identity with the stored best is not "a new best"
+        for initial_rank, names_, batch in ((5, ["old"], (5,)), (5, ["ind1", "old"], (3, 5)), (5, ["old", "old"], (5, 5)),
+                                            (5, ["ind1", "ind1"], (7, 7)), (None, ["ind1", "ind1"], (5, 5)), (None, ["ind1", "ind2", "ind1"], (5, 3, 5))):
+            scenarios += 1
+            init = None if initial_rank is None else Sym("old")
+            state = fresh if initial_rank is None else warm
+            try:
+                results, inds, ranks = _tracker_model(ctx, c, attr, init, batch, {"old": 5}, state=state, names=names_)
+            except Budget:
+                undecided.append("too many unknown branches")
+                continue
+            best, flags = (None if init is None else "old"), []
+            for t, r in zip(names_, batch):
+                if best is None or r > ranks[best]:
+                    best, f = t, True
+                else:
+                    f = False
+                flags.append((t, f))
+            for trace, rv, notes in results:
+                stores = [e for e in trace if e.kind == "store" and e.name == f"self.{attr}"]
+                final = stores[-1].args[0] if stores else init
+                final_tag = final.tag if isinstance(final, Sym) else None if final is None else "?"
+                got = []
+                for e in [e for e in trace if e.kind == "call" and e.name == "register"]:
+                    ind = e.kwargs.get("individual", e.args[1] if len(e.args) > 1 else None)
+                    fl = e.kwargs.get("is_best", e.args[3] if len(e.args) > 3 else None)
+                    got.append((ind.tag if isinstance(ind, Sym) else "?", fl))
+                if any(fl is UNKNOWN or not isinstance(fl, bool) for _, fl in got) or final_tag == "?":
+                    undecided.append(f"initial={initial_rank} batch={list(zip(names_, batch))}: flag/best not determined ({got}, {final_tag})")
+                    continue
+                if final_tag != best or got != flags:
+                    bad.append({"initial_best_rank": initial_rank, "batch_ranks": tuple(zip(names_, batch)), "stored_best": final_tag, "expected_best": best,
+                                "reported": got, "expected_flags": flags})
         n += 1
         if bad:
             w = bad[0]
@@ -351,7 +385,11 @@ def rule_r2(ctx: Ctx) -> int:
             # another spelling (a key helper, a mirrored comparison, attrgetter): decided by interpreting is_better on fitness objects whose
             # maximising aggregates are (3, 5), (5, 3), (5, 5), (-inf, 5), (5, -inf)
             from ..modelinterp import Budget as _B, Interp as _I, Obj as _O, Sym as _S, UNKNOWN as _U
-            table = [((3, 5), False), ((5, 3), True), ((5, 5), False), ((float("-inf"), 5), False), ((5, float("-inf")), True)]
+            # ... and pairs that differ by less than any tolerance a "noise" guard would use: a strictly better aggregate is better however close
+            table = [((3, 5), False), ((5, 3), True), ((5, 5), False), ((float("-inf"), 5), False), ((5, float("-inf")), True),
+                     ((1000000000147.0, 1000000000109.0), True), ((1000000000109.0, 1000000000147.0), False),
+                     ((1.0000000001, 1.0), True), ((1.0, 1.0000000001), False), ((5e-324, 0.0), True), ((0.0, 5e-324), False),
+                     ((-3.0, -3.0000000000000004), True), ((2 ** 60 + 1, 2 ** 60), True)]
             got, und_ = [], None
             for (x, y), want in table:
                 itp = _I(prog, f.cls, lambda *_: None, lambda *a_, **k_: None, max_depth=5, max_traces=4)
@@ -373,7 +411,10 @@ def rule_r2(ctx: Ctx) -> int:
                 if wrong:
                     x, y, g_, w_ = wrong[0]
                     why = (f"is_better(a, b) with aggregates a={x}, b={y} is {g_}, expected {w_}: " +
-                           ("a tie replaces the stored best and is reported as a new best" if x == y else "the comparison runs in the wrong direction"))
+                           ("a tie replaces the stored best and is reported as a new best" if x == y else
+                            "a strictly better fitness within some tolerance of the incumbent is not an improvement: the reported best is worse than an "
+                            "individual that was evaluated" if (w_ and not g_ and abs(x - y) <= 1e-6 * max(abs(x), abs(y), 1)) else
+                            "the comparison runs in the wrong direction"))
             elif "not a single strict comparison" in why:
                 ok = None
                 why = und_
